@@ -44,8 +44,8 @@ def slab_start(geo, D):
 def cons_spec(name, geo, D):
     if name == "slab":
         return ["slab", snapped_x0_coord0(geo, D), 1e-7]
-    if name == "half":
-        return P.half_for("in", geo, D)
+    if name in ("half", "half_r"):
+        return P.half_for("in", geo, D, real=name.endswith("_r"))
     return name
 
 
@@ -98,6 +98,9 @@ def run(ctx):
     base = [job(D, g, m, c, s) for D in Ds for g in ("lin", "log") for m in ("det", "decl") for c in ("half", "ball", "slab", "annulus") for s in seeds]
     base += [job(D, g, "det", c, seeds[0], target=t) for D in Ds for g in ("lin", "log") for c in ("half", "ball", "annulus") for t in ("sphere_corner", "sphere_out")]
     base += [job(D, "lin", m, c, seeds[0], x0="absent") for D in Ds for m in ("det", "decl") for c in ("ball",)]
+    # real-valued constraints (amount of violation; small positive values near the boundary) and further geometries
+    base += [job(D, g, m, c, seeds[0], target=t) for D in Ds for g in ("lin", "log2", "lin2") for m in ("det", "decl") for c in ("half_r", "ball_r", "annulus_r")
+             for t in (("adv", "sphere_out") if m == "det" else ("sphere_out",))]
     st = explore(base, ["ans", "noise"], 0, sink, name="matrix/b0")
     adv = [job(D, g, "det", c, seeds[0], base=b) for D in Ds for g in ("lin", "log") for c in ("half", "ball", "annulus") for b in ("F", "S4")]
     st = explore(adv, ["ans"], 1 if q else 2, sink, stats=st, name="adv/b", pos_ok=(lambda k, p, r: p < 12) if q else None,
